@@ -390,4 +390,16 @@ def invGammaQ (T : Transc) (P : Rat → Rat → Except Err Rat) (q a : Rat) : Ex
   if q < 0 ∨ q > 1 then .error .diag             -- `fix:` d65f15f: tested on q itself (1 - q rounds)
   else invGammaP T P (1 - q) a
 
+/-! ## Mirrors of the repairs proposed by the second audit (fixprop-C06-5, C06-6) -/
+
+/-- `Gamma(s) * fraction` as fixprop-C06-5 forms it: a zero fraction gives 0 before `Gamma(s)` is looked at
+    (in double: no `inf * 0`; where `Gamma(s)` is infinite the product is `exp(GammaLn(s) + log(fraction))`, the same real number) -/
+def gammaTimesFraction (g fraction : Rat) : Rat := if fraction = 0 then 0 else g * fraction
+
+/-- `Binomial_Coefficient` with the product path for every `n` (fixprop-C06-6): the memo table is not touched any more -/
+def binomialAll (n k : Int) : Except Err Rat :=
+  if k < 0 ∨ n < 0 then .error .diag
+  else if n < k then .ok 0
+  else .ok (binomProduct n.toNat k.toNat)
+
 end Lp.C06
